@@ -1069,6 +1069,7 @@ def run(ctx):
     run_large(ctx)
     run_audit(ctx, dims)
     run_upload_midwrite(ctx, dims)
+    run_readthrough_cache(ctx, dims)
     run_bigdir(ctx, dims)
     ctx.extra["input_dimensions"] = dict(sorted(dims.items()))
     ctx.obligation("oracle:rehash-every-object-after-every-step",
@@ -1329,6 +1330,73 @@ def run_upload_midwrite(ctx, dims):
                 ctx.oracle_fail("C01:misnamed-object:upload-after-concurrent-rewrite",
                                 f"build(upload=True) on a {cls} store with the file rewritten before open #{nth}: "
                                 f"objects not named by their bytes: {bad[:3]!r}", case)
+
+
+def run_readthrough_cache(ctx, dims):
+    """the read-through cache of DataFileSystem (open/get_file with cache=True -> cache_odb.add) is one more operation
+    that files content in a store: after reads of a legacy md5-dos2unix CRLF entry, an md5 entry and a binary legacy
+    entry from remotes on a non-local file system, every object of the md5 cache is named by the MD5 of its bytes and
+    write-protected.  Oracle only."""
+    import uuid
+
+    from dvc_objects.fs.memory import MemoryFileSystem
+
+    from dvc_data.fs import DataFileSystem
+    from dvc_data.hashfile.db import HashFileDB
+    from dvc_data.hashfile.hash_info import HashInfo
+    from dvc_data.hashfile.meta import Meta
+    from dvc_data.index import DataIndex, DataIndexEntry, ObjectStorage
+
+    memfs, mem_root = MemoryFileSystem(), f"/c01-{uuid.UUID(int=ctx.rng.getrandbits(128)).hex}"
+    root = ctx.fresh("c01-rtc")
+    cache = impl.local_odb(os.path.join(root, "cache"))
+    crlf = b"one\r\ntwo\r\n"
+    plain = b"plain md5 content"
+    legacy = HashFileDB(memfs, f"{mem_root}/legacy", hash_name="md5-dos2unix")
+    new = HashFileDB(memfs, f"{mem_root}/new", hash_name="md5")
+    d2u = hashlib.md5(crlf.replace(b"\r\n", b"\n")).hexdigest()
+    legacy.add_bytes(d2u, crlf)
+    new.add_bytes(hashlib.md5(plain).hexdigest(), plain)
+    index = DataIndex()
+    index[("legacy", "a.txt")] = DataIndexEntry(key=("legacy", "a.txt"), meta=Meta(), hash_info=HashInfo("md5-dos2unix", d2u))
+    index[("new", "b")] = DataIndexEntry(key=("new", "b"), meta=Meta(), hash_info=HashInfo("md5", hashlib.md5(plain).hexdigest()))
+    index.storage_map.add_remote(ObjectStorage(("legacy",), legacy))
+    index.storage_map.add_remote(ObjectStorage(("new",), new))
+    index.storage_map.add_cache(ObjectStorage((), cache))
+    case = {"stream": "read-through-cache", "oracle_only": True,
+            "reads": ["/legacy/a.txt cache=True", "/new/b cache=True", "get_file /legacy/a.txt cache=True"]}
+    try:
+        fs = DataFileSystem(index)
+        with fs.open("/legacy/a.txt", cache=True) as f:
+            f.read()
+        with fs.open("/new/b", cache=True) as f:
+            f.read()
+        fs.get_file("/legacy/a.txt", os.path.join(root, "out"), cache=True)
+    except Exception as exc:  # noqa: BLE001
+        ctx.count("read-through-cache:raised:" + type(exc).__name__)
+    finally:
+        try:
+            memfs.rm(mem_root, recursive=True)
+        except FileNotFoundError:
+            pass
+    bad = []
+    for d, _sub, files in os.walk(os.path.join(root, "cache")):
+        for fn_ in files:
+            par = os.path.basename(d)
+            if len(par) == 2 and len(fn_) == 30:
+                fp = os.path.join(d, fn_)
+                with open(fp, "rb") as f:
+                    data = f.read()
+                if hashlib.md5(data).hexdigest() != par + fn_:
+                    bad.append((par + fn_, data[:30]))
+                elif stat.S_IMODE(os.stat(fp).st_mode) != 0o444:
+                    bad.append((par + fn_, "mode " + oct(stat.S_IMODE(os.stat(fp).st_mode))))
+    ctx.case(case, True)
+    ctx.count("stream:read-through-cache")
+    dims["route:read-through cache (DataFileSystem cache=True), legacy + md5 remotes"] = 1
+    if bad:
+        ctx.oracle_fail("C01:misnamed-object:read-through-cache",
+                        f"after cache=True reads the md5 cache holds objects not named by their bytes / not protected: {bad!r}", case)
 
 
 def run_large(ctx):
